@@ -3,6 +3,7 @@ import numpy as np
 from hypothesis import strategies as st
 
 from vp import sut
+from vp.gens import weighted
 from vp.gens import meta as gm, recording as rec, selectors as sel
 from vp.oracles import calib
 
@@ -26,8 +27,13 @@ SHRINK = {"quick": True, "thorough": True}
 
 
 @st.composite
-def _case(draw):
-    if draw(st.integers(0, 9)) == 0:
+def _case(draw, long=False):
+    if long:
+        # a recording of more than a million samples (35-40 s at 30 kHz) with one to three channels: selections that span
+        # it, strided or not, are what a user reads from a real file; 10^6 is also the module's DEFAULT_BATCH_SIZE
+        spec = draw(gm.st_spec(allow_nosync=True, n_choices=(1, 2, 3), ns_range=(1_000_001, 1_200_000),
+                               patterns=("dense", "random", "reversed")))
+    elif draw(st.integers(0, 9)) == 0:
         spec = draw(gm.st_nidq(ns_range=(1, 300)))
     else:
         spec = draw(gm.st_spec(allow_nosync=True, ns_range=(1, 300)))
@@ -36,12 +42,12 @@ def _case(draw):
     cbin = draw(st.booleans())
     case = {"spec": spec, "content_seed": draw(st.integers(0, 2 ** 32 - 1)),
             "content_mode": draw(st.sampled_from(["full", "full", "ramp"])),
-            "cbin": cbin, "chunk": draw(st.integers(5, 90)), "sort": draw(st.sampled_from([True, True, False])),
+            "cbin": cbin, "chunk": draw(st.integers(90_000, 400_000) if long else st.integers(5, 90)), "sort": draw(st.sampled_from([True, True, False])),
             # how the reader is built: directly, from a str path, with open=False + open(), or open=False + context manager
             # "inplace" (compressed files only): the reader decompresses its file in place (keep_original=False is
             # documented as modifying the current reader), is re-opened and then used for every read
             "how": draw(st.sampled_from(["default", "default", "str", "deferred", "context"] + (["inplace"] if cbin else [])))}
-    nops = draw(st.integers(24, 40))
+    nops = draw(st.integers(5, 8) if long else st.integers(24, 40))
     ops = []
     for _ in range(nops):
         ep = draw(st.sampled_from(["getitem2", "getitem2", "getitem2", "getitem1", "read", "read_samples"]))
@@ -90,7 +96,7 @@ def _flat_case(draw):
 
 
 def strategy(tier):
-    return st.one_of(*([_case()] * 11 + [_flat_case()]))
+    return weighted((33, _case()), (3, _flat_case()), (1, _case(long=True)))
 
 
 def _neg_step(s):
@@ -171,6 +177,8 @@ def run_case(case, ctx):
     nsync = spec["dw"] if spec["gen"] == "nidq" else spec.get("nsync", 1)
     D = rec.make_data(ns, nc, case["content_seed"], case["content_mode"], nsync=nsync)
     ctx.label(spec["gen"], "cbin" if case["cbin"] else "bin", "sort" if case["sort"] else "nosort")
+    if ns > 1_000_000:
+        ctx.label("longer_than_1e6_samples")
     if spec["gen"] != "nidq":
         ctx.label("enc_" + spec["enc"], "pat_" + spec["pattern"], "stream_" + spec["stream"],
                   "subset" if spec["n"] < spec["n_acq"] else "all_acq", f"nsync{spec.get('nsync', 1)}")
